@@ -442,6 +442,43 @@ pub fn gen_case_with(rng: &mut Rng, knobs: Knobs, gas_limit: Word, custom_script
     Case { checked, storage, params, script, call_ids, listed, deployed, gas_limit }
 }
 
+/// a case with given contract programs (slot i of the call structs = contract i, all listed), a given script and given
+/// `(a, b)` call parameters per slot
+pub fn fixed_case(seed: u64, contracts: &[Vec<Instruction>], script: Vec<Instruction>, slot_ab: &[(u64, u64)], gas_limit: Word) -> Case {
+    let mut rng = Rng(seed);
+    let mut tb = TestBuilder::new(seed);
+    let assets = [AssetId::zeroed(), AssetId::new(rng.arr32()), AssetId::new(rng.arr32()), AssetId::new(rng.arr32())];
+    let mut call_ids = [ContractId::zeroed(); N_CALLS];
+    for c in call_ids.iter_mut() { *c = ContractId::new(rng.arr32()); }
+    let mut deployed = vec![];
+    for (i, code) in contracts.iter().enumerate() {
+        let created = tb.setup_contract(code.clone(), None, None);
+        call_ids[i] = created.contract_id;
+        deployed.push(i);
+    }
+    let mut data = Vec::with_capacity(DATA_LEN);
+    for i in 0..N_CALLS {
+        data.extend_from_slice(call_ids[i].as_ref());
+        let (a, b) = slot_ab.get(i).copied().unwrap_or((0, 0));
+        data.extend_from_slice(&a.to_be_bytes());
+        data.extend_from_slice(&b.to_be_bytes());
+    }
+    for a in assets.iter() { data.extend_from_slice(a.as_ref()); }
+    data.resize(DATA_LEN, 0x5a);
+    tb.start_script(script.clone(), data);
+    tb.script_gas_limit(gas_limit);
+    tb.gas_price(0);
+    tb.variable_output(assets[0]);
+    tb.fee_input();
+    tb.coin_input(assets[0], 1_000);
+    for &i in &deployed { tb.contract_input(call_ids[i]); }
+    for &i in &deployed { tb.contract_output(&call_ids[i]); }
+    tb.change_output(assets[0]);
+    let checked = tb.build();
+    let storage = tb.get_storage().clone();
+    Case { checked, storage, params: ConsensusParameters::standard(), script, call_ids, listed: deployed.clone(), deployed, gas_limit }
+}
+
 /// canonical digest of everything the whole-VM properties call "the result"
 pub fn digest_result(state: &str, receipts: &[Receipt], tx: &Script, storage: &MemoryStorage) -> String {
     use fuel_types::canonical::Serialize;
